@@ -20,7 +20,7 @@ func init() {
 		}
 		sqlMethods := map[string]bool{"ExecContext": true, "QueryRowContext": true, "QueryContext": true, "Exec": true, "Query": true, "QueryRow": true, "PrepareContext": true, "Prepare": true}
 		fsFuncs := map[string]bool{"Open": true, "OpenFile": true, "Create": true, "WriteFile": true, "Truncate": true, "Remove": true, "RemoveAll": true, "Rename": true, "Chtimes": true, "Chmod": true}
-		var inv, commits, opens, recvKinds []string
+		var inv, commits, opens, passed, recvKinds []string
 		files := []string{"db.go", "litestream.go", "store.go", "compactor.go", "server.go", "heartbeat.go", "log.go", "wal_reader.go"}
 		for _, fn := range files {
 			f, ok := p.files[fn]
@@ -73,6 +73,25 @@ func init() {
 					if !ok {
 						return true
 					}
+					// the path of the database file (or its -shm) handed to any function other than os.* (listed
+					// below), path arithmetic, metrics labels, logging and error formatting: a helper that opens it
+					{
+						callee := strings.Join(strings.Fields((&tctx{p: p}).src(ce.Fun)), "")
+						last := callee
+						if i := strings.LastIndex(last, "."); i >= 0 {
+							last = last[i+1:]
+						}
+						benign := map[string]bool{"WithLabelValues": true, "Errorf": true, "Sprintf": true, "Info": true, "Debug": true, "Error": true, "Warn": true,
+							"With": true, "Base": true, "Dir": true, "Join": true, "Stat": true, "Lstat": true, "append": true, "Clean": true, "Abs": true, "Log": true}
+						if !strings.HasPrefix(callee, "os.") && !benign[last] {
+							for _, a := range ce.Args {
+								s := strings.Join(strings.Fields((&tctx{p: p}).src(a)), "")
+								if s == "db.path" || s == "db.Path()" || strings.Contains(s, "SHMPath()") {
+									passed = append(passed, fd.Name.Name+": "+callee+"("+s+")")
+								}
+							}
+						}
+					}
 					sel, ok := ce.Fun.(*ast.SelectorExpr)
 					if !ok {
 						return true
@@ -104,7 +123,7 @@ func init() {
 						}
 						for _, a := range ce.Args {
 							if isDBPath((&tctx{p: p}).src(a)) {
-								opens = append(opens, fd.Name.Name+": os."+sel.Sel.Name)
+								opens = append(opens, fd.Name.Name+": os."+sel.Sel.Name+"("+strings.Join(strings.Fields((&tctx{p: p}).src(a)), "")+")")
 								break
 							}
 						}
@@ -140,6 +159,14 @@ func init() {
 		}
 		sb.WriteString("]\n\n/-- every file-modifying or file-opening os.* call (Open, OpenFile, Create, WriteFile, Truncate, Remove, RemoveAll, Rename, Chtimes, Chmod) with the database path, its -wal or its -shm among the arguments -/\ndef dbPathCalls : List String := [")
 		for i, s := range opens {
+			if i > 0 {
+				sb.WriteString(", ")
+			}
+			sb.WriteString(strconv.Quote(s))
+		}
+		sb.WriteString("]\n\n/-- every call (other than os.*, path arithmetic, metric labels, logging, error formatting) that is handed the path of the database file or of its -shm -/\ndef dbPathPassedTo : List String := [")
+		sort.Strings(passed)
+		for i, s := range passed {
 			if i > 0 {
 				sb.WriteString(", ")
 			}
